@@ -52,6 +52,16 @@ class Scheduler:
             t.running = False
         return True
 
+    def nested(self, num: int = 1, den: int = 3) -> None:
+        """Called from inside a running task (e.g. from its input iterator): with a tape-decided
+        probability run steps of other tasks before returning - interleaving below frame granularity."""
+        while self.sim.flip(num, den, "nested"):
+            r = self.runnable()
+            if not r:
+                return
+            self.sim.count("nested_steps")
+            self.step(r[self.sim.choose(len(r), "nested_pick")])
+
     def runnable(self) -> list[Task]:
         return [t for t in self.tasks if not t.done and not t.running]
 
